@@ -154,7 +154,7 @@ Definition ctx_bytes (cb0 cb1 : N) : list N :=
 Inductive compile_result :=
 | CPanic                                   (* the builder panicked *)
 | CError                                   (* Instructions returned an error *)
-| COk (packed : list N).                   (* the assembled sub-programs (Bpf.decode_prog packing), entry point first *)
+| COk (words : list (list N)).             (* the assembled sub-programs as 8-byte instruction words, entry point first *)
 
 Record case := {
   c_v6 : bool;
@@ -167,6 +167,15 @@ Record case := {
   c_result : compile_result;
   c_probes : list pstate
 }.
+
+(* typed constants for the case terms printed by the driver (an untyped [] / None is slow to elaborate) *)
+Definition nC : list cidr := [].        Definition nP : list port_range := [].   Definition nN : list N := [].
+Definition nR : list brule := [].       Definition nPr : list (list brule) := [].  Definition nT : list btier := [].
+Definition nE : list set_entry := [].
+Definition oN : option N := None.       Definition oV : option ipver := None.
+Definition oI : option icmp_match := None.  Definition oK : option pname := None.
+Definition sN (n : N) : option N := Some n.           Definition sV (v : ipver) : option ipver := Some v.
+Definition sI (m : icmp_match) : option icmp_match := Some m.   Definition sK (k : pname) : option pname := Some k.
 
 Definition FD_IPSETS : N := 11.  Definition FD_STATE : N := 12.
 Definition FD_STATIC : N := 13.  Definition FD_JUMP : N := 14.
@@ -238,8 +247,8 @@ Definition check_case (c : case) : bool * bool :=
   match c_result c with
   | CPanic => (match instructions (c_variant c) v (c_rules c) with WPanic => true | WOk _ => false end, negb valid)
   | CError => (false, negb valid)
-  | COk packed =>
-      let progs := map decode_prog packed in
+  | COk words =>
+      let progs := map decode_prog words in
       match progs with
       | [] => (false, false)
       | p0 :: _ =>
@@ -254,6 +263,21 @@ Definition check_case (c : case) : bool * bool :=
           (forallb fst per, forallb snd per)
       end
   end.
+
+(* Known-finding classifier (evaluated only on cases the oracle rejected).  A rejected case belongs to a modelled
+   defect class exactly when (1) the model of the PROBED variant predicts everything the real code did (panic, or
+   every probe's verdict), and (2) the model of the FIXED variant compiles and reaches the reference verdict on
+   every probe: the whole divergence from the reference is the modelled variant difference.  props/C11.py then
+   names the class from the case's feature tag. *)
+Definition classify_case (c : case) : bool * bool :=
+  let v := ver_of c in
+  let e := env_of c [] in
+  let bs : bpfsets := set_lookup e in
+  let s := ref_sets (bits_of c) (c_sets c) in
+  let fixed_ok :=
+    valid_rules (c_rules c) &&
+    forallb (fun ps => obs_verdict_is (model_verdict fixed_variant v (c_rules c) bs ps) (ref_verdict s v (c_rules c) ps)) (c_probes c) in
+  (fst (check_case c) && fixed_ok, true).
 
 (* debugging aid for replays: the raw outcome of probe k *)
 Definition outcome_summary (o : outcome) : N * N * N :=
